@@ -18,8 +18,6 @@ def assemble(asm, src, compress=False, include_dirs=None):
         return ('ok', bytes(out), labels, consts)
     except asm.AssemblerError as e:
         return ('refused', e)
-    except RecursionError:
-        raise
     except Exception as e:  # raw exception escaping the assembler: still a refusal of the program
         return ('exc', e)
 
